@@ -233,6 +233,14 @@ def main(mod, tier, seed, replay=None):
     evidence_path = os.path.join(VERIF, "evidence", f"{prop}.json")
     known = [k for k in _load_known() if k.get("property") == prop]
     violations, known_hits, undecided_msgs = [], [], []
+    cross = None
+    if tier == "thorough":
+        from . import crosscheck
+        n_cc, pr_cc = crosscheck.run()
+        cross = {"model_evaluations": n_cc, "disagreements": len(pr_cc)}
+        if pr_cc:
+            print(f"CHECKER-UNSOUND property={prop}: builtin model disagrees with CPython: {pr_cc[:3]}")
+            return 3
     try:
         results, info, undecided = verify(mod, tier, seed)
     except Exception:
@@ -341,6 +349,7 @@ def main(mod, tier, seed, replay=None):
             "obligation_list": [{"id": r["id"], "kind": r["kind"], "verdict": r["verdict"], "backend": r["backend"], "ms": int(r["s"] * 1000)} for r in results],
             "samples": samples,
             "canaries": canaries,
+            "builtin_model_crosscheck_vs_cpython": cross,
             "vacuity_covers": getattr(verify, "cover_stats", None),
             "bounded": ({"what": "native contract battery on the real code (bounded stand-in; NOT counted under discharged)", "cases": battery.get("cases"), "distinct_nontrivial": battery.get("distinct"),
                          "scope": battery.get("scope"), "failures": len(bat_fail), "samples": battery.get("samples", [])[:3], "s": battery.get("s")} if battery else None),
